@@ -146,6 +146,7 @@ type Oblig struct {
 }
 
 type Failure struct {
+	x       *Exec
 	Status  string
 	Trace   []string
 	Script  string
@@ -598,7 +599,7 @@ func (x *Exec) check(st *State, o *Oblig, goal string) bool {
 		return false
 	}
 	script := x.sess.Dump("(assert (not " + goal + "))")
-	f := &Failure{Status: res, Trace: append([]string(nil), st.trace...), Script: script}
+	f := &Failure{x: x, Status: res, Trace: append([]string(nil), st.trace...), Script: script}
 	_ = model
 	{
 		// The live (incremental) answer "sat"/"unknown" is only a hint: z3's
